@@ -33,8 +33,11 @@ TraceTyped == IsEvent("Typed") /\ TypedRowOK(Ev.kinds, Ev.row, Traces[tid].hdr.f
 
 TraceTypedGrid == IsEvent("TypedGrid") /\ TypedGridOK(Ev.kinds, Ev.grid, Traces[tid].hdr.fmt, Dev)
 
+\* the text line of a typed data row (words of the last line of get_full_text(); token words as "<token>")
+TraceTypedText == IsEvent("TypedText") /\ TypedTextOK(Ev.kinds, Ev.words)
+
 TraceInit == tid \in 1..Len(Traces) /\ l = 1
-TraceNext == TraceText \/ TraceUnits \/ TraceTables \/ TraceTyped \/ TraceTypedGrid
+TraceNext == TraceText \/ TraceUnits \/ TraceTables \/ TraceTyped \/ TraceTypedGrid \/ TraceTypedText
 TraceSpec == TraceInit /\ [][TraceNext]_vars
 TraceAccept ==
     /\ (l = Len(Traces[tid].ev) + 1) => PrintT(<<"ACCEPT", tid>>)
